@@ -885,7 +885,10 @@ typedef struct
 {
     unsigned n;
     mfset_t s[7];
-    double *flat;     /* the table handed to the library: exact-size block {type, params...} x n */
+    double *flat;     /* the table handed to the library: exact-size block {type, params...} x n [, A_MF_NUL] */
+    size_t len;       /* cells of flat */
+    int nul;          /* fewer sets than the order of the rule base: the table ends with A_MF_NUL */
+    int borrowed;     /* flat lies inside the block of the other table (both tables packed into one array) */
     unsigned overlap; /* bound on simultaneously active sets (max number of overlapping open supports) */
 } part_t;
 
@@ -927,7 +930,10 @@ static void part_finish(part_t *P)
     unsigned np = 0, i, j, best = 0;
     size_t nflat = 0, o = 0;
     for (i = 0; i < P->n; ++i) { nflat += 1 + mf_nparams(P->s[i].type); }
-    P->flat = (double *)xmalloc(nflat * sizeof(double));
+    nflat += P->nul ? 1 : 0;
+    P->len = nflat;
+    P->flat = (double *)xmalloc((nflat ? nflat : 1) * sizeof(double));
+    if (P->nul) { P->flat[nflat - 1] = A_MF_NUL; }
     for (i = 0; i < P->n; ++i)
     {
         P->flat[o++] = (double)P->s[i].type;
@@ -948,7 +954,29 @@ static void part_finish(part_t *P)
     }
     P->overlap = best ? best : 1;
 }
-static void part_free(part_t *P) { free(P->flat); P->flat = NULL; }
+static void part_free(part_t *P) { if (!P->borrowed) { free(P->flat); } P->flat = NULL; P->borrowed = 0; }
+/* A table with FEWER sets than the order of the rule base, ended by A_MF_NUL (the form "table, terminated by 0" of the bindings' documentation: a coarse
+   partition of one axis under a larger rule base). Only the sets in front of the terminator exist. The block is exact-size, so that a walk beyond the
+   terminator is an out-of-bounds read; or both tables sit back to back in ONE array {e sets, NUL, ec sets[, NUL]}, so that such a walk meets valid
+   set descriptions (seeded change C12-M: the parser treats A_MF_NUL as a kind without parameters and keeps going until `order` entries are read). */
+static void part_cut(part_t *P, unsigned k)
+{
+    part_free(P);
+    P->n = k;
+    P->nul = 1;
+    part_finish(P);
+}
+static void parts_pack(part_t *E, part_t *C)
+{
+    double *joint = (double *)xmalloc((E->len + C->len ? E->len + C->len : 1) * sizeof(double));
+    memcpy(joint, E->flat, E->len * sizeof(double));
+    memcpy(joint + E->len, C->flat, C->len * sizeof(double));
+    part_free(E);
+    part_free(C);
+    E->flat = joint;
+    C->flat = joint + E->len;
+    C->borrowed = 1;
+}
 static void part_log(char const *name, part_t const *P)
 {
     char buf[700];
@@ -1136,9 +1164,9 @@ static fzgain ref_fuzzy_gains(fz_t const *f, double e, double ec)
     memset(&G, 0, sizeof(G));
     for (i = 0; i < f->n; ++i)
     {
-        q_t m = ref_mf(&f->pe.s[i], e);
+        q_t m = i < f->pe.n ? ref_mf(&f->pe.s[i], e) : 0;
         if (m > 0) { mue[G.ne] = m; ie[G.ne++] = i; all_one &= m == 1; }
-        m = ref_mf(&f->pec.s[i], ec);
+        m = i < f->pec.n ? ref_mf(&f->pec.s[i], ec) : 0;
         if (m > 0) { muc[G.nec] = m; ic[G.nec++] = i; all_one &= m == 1; }
     }
     G.exact = 1;
@@ -1175,11 +1203,11 @@ static int lib_all_joint_zero(fz_t const *f, double e, double ec)
     size_t oe = 0, oc = 0;
     for (i = 0; i < f->n; ++i)
     {
-        double y = a_mf((unsigned)f->pe.s[i].type, e, f->pe.flat + oe + 1);
-        oe += 1 + mf_nparams(f->pe.s[i].type);
+        double y = i < f->pe.n ? a_mf((unsigned)f->pe.s[i].type, e, f->pe.flat + oe + 1) : 0;
+        if (i < f->pe.n) { oe += 1 + mf_nparams(f->pe.s[i].type); }
         if (y > EPS) { mue[ne++] = y; }
-        y = a_mf((unsigned)f->pec.s[i].type, ec, f->pec.flat + oc + 1);
-        oc += 1 + mf_nparams(f->pec.s[i].type);
+        y = i < f->pec.n ? a_mf((unsigned)f->pec.s[i].type, ec, f->pec.flat + oc + 1) : 0;
+        if (i < f->pec.n) { oc += 1 + mf_nparams(f->pec.s[i].type); }
         if (y > EPS) { muc[nec++] = y; }
     }
     for (i = 0; i < ne; ++i) { for (j = 0; j < nec; ++j) { W += op(mue[i], muc[j]); } }
@@ -1252,6 +1280,17 @@ static double fz_gen_parts(vf_rng *r, fz_t *f, int exact, double keepR)
         part_real(r, &f->pec, f->n, d * vf_logu(r, -1, 1));
         R = d * (double)f->n * vf_uniform(r, 0.3, 2);
         if (R > 1e6) { R = 1e6; }
+    }
+    {
+        /* short tables and packed tables: decided by a hash of (seed, case), not drawn from r, so that all other histories keep their content */
+        uint64_t const hsh = vf_hash64(vf.seed * 0x9E3779B97F4A7C15ULL + 0xC12A, vf.case_no * 2 + (keepR > 0));
+        if (f->n >= 2 && (hsh & 3) == 0)
+        {
+            unsigned const side = (unsigned)(hsh >> 2 & 3), k = 1 + (unsigned)((hsh >> 8) % (f->n - 1));
+            if (side != 1) { part_cut(&f->pe, k); VF_COUNT("fuzzy-e-table-shorter-than-the-rule-base"); }
+            if (side != 0) { part_cut(&f->pec, 1 + (unsigned)((hsh >> 16) % (f->n - 1))); VF_COUNT("fuzzy-ec-table-shorter-than-the-rule-base"); }
+        }
+        if ((hsh >> 4 & 3) == 0) { parts_pack(&f->pe, &f->pec); VF_COUNT("fuzzy-both-tables-packed-in-one-array"); }
     }
     return R;
 }
